@@ -2411,9 +2411,20 @@ class Transport(threading.Thread, ClosingContextManager):
         """
         self.clear_to_send_lock.acquire()
         try:
+            if self.local_kex_init is not None:
+                # Our KEXINIT for the exchange currently in progress is
+                # already out (eg the peer started a re-key and we answered
+                # it, and now `renegotiate_keys` is called, or vice versa).
+                # Sending a second one would make the peer abort.
+                return
             self.clear_to_send.clear()
+            self._send_kex_init_locked()
         finally:
             self.clear_to_send_lock.release()
+
+    def _send_kex_init_locked(self):
+        # (clear_to_send_lock is held, so no user message can slip in between
+        # the decision to start an exchange and our KEXINIT.)
         self.gss_kex_used = False
         self.in_kex = True
         kex_algos = list(self.preferred_kex)
